@@ -58,12 +58,17 @@ class _LiveRender(LiveRender):
 
             shape = Segment.get_shape(lines)
             _, height = shape
-            if height > console.size.height:
+            max_height = console.size.height
+            if self._live.transient and not self._live._started:
+                # the last frame of a transient display is ended by a new line and then erased:
+                # leave room for that line, or the first row scrolls out of reach
+                max_height = max(max_height - 1, 0)
+            if height > max_height:
                 if self._live.vertical_overflow == "crop":
-                    lines = lines[: console.size.height]
+                    lines = lines[:max_height]
                     shape = Segment.get_shape(lines)
                 elif self._live.vertical_overflow == "ellipsis":
-                    lines = lines[: (console.size.height - 1)]
+                    lines = lines[: max(max_height - 1, 0)]
                     lines.append(
                         list(
                             console.render(
@@ -159,8 +164,10 @@ class Live(JupyterMixin, RenderHook):
                 if self.auto_refresh and self._refresh_thread is not None:
                     self._refresh_thread.stop()
                 # allow it to fully render on the last even if overflow
+                # (a transient display is erased right away: it has to stay erasable)
                 vertical_overflow = self.vertical_overflow
-                self.vertical_overflow = "visible"
+                if not self.transient:
+                    self.vertical_overflow = "visible"
                 try:
                     if not self.console.is_jupyter:
                         self.refresh()
